@@ -1,4 +1,5 @@
 import NeverModel.Lemmas.VerCert
+import NeverModel.Model.VerifyRun
 import NeverModel.Lemmas.VmFrameOps
 import NeverModel.Lemmas.VmInitArray
 import NeverModel.Lemmas.ExcTab
@@ -7,12 +8,6 @@ set_option linter.unusedVariables false
 /-! from the certificate `flowOk` to executions of M-VM: the invariant "running at the recorded height", one step, many steps -/
 namespace Never.Ver
 open Never Never.Vm
-
-/-- parameter count of the function whose code contains address `a` (0 in the top region) -/
-def fnParamsAt (md : Module) (a : Nat) : Nat := npAt md (funcStarts md) a
-
-/-- `a` lies inside a function body (not in the global initialisation / entry stub) -/
-def inFunction (md : Module) (a : Nat) : Bool := !topAt (funcStarts md) a
 
 /-- the machine is running at a reached address with `sp` exactly the recorded height above the parameters of the running
 function: `sp = pp + nparams + h(ip)` -/
